@@ -37,18 +37,18 @@ def _real(root, path):
     return root + path if path != '/' else root
 
 
-def build_tree(root, tree):
-    os.makedirs(root, exist_ok=True)
-    os.chmod(root, 0o755)
-    later = []
-    for i, ent in enumerate(tree):
+def _build_one(root, ent, i, later):
         kind, path = ent[0], ent[1]
         rp = os.fsencode(_real(root, path))
         if kind == 'd':
+            if os.path.lexists(rp) and not os.path.isdir(rp):
+                return
             os.makedirs(rp, exist_ok=True)
             later.append((rp, ent[2] if len(ent) > 2 else 0o755, i))
         elif kind == 'f':
             os.makedirs(os.path.dirname(rp), exist_ok=True)
+            if os.path.lexists(rp) and not os.path.isfile(rp):
+                return
             data = ent[2]
             if isinstance(data, str):
                 data = data.encode('utf-8', 'surrogateescape')
@@ -58,8 +58,21 @@ def build_tree(root, tree):
             os.utime(rp, (MT0 + i, MT0 + i))
         elif kind == 'l':
             os.makedirs(os.path.dirname(rp), exist_ok=True)
+            if os.path.lexists(rp):
+                return                      # generated twice: the first definition wins
             os.symlink(os.fsencode(ent[2]), rp)
             os.utime(rp, (MT0 + i, MT0 + i), follow_symlinks=False)
+
+
+def build_tree(root, tree):
+    os.makedirs(root, exist_ok=True)
+    os.chmod(root, 0o755)
+    later = []
+    for i, ent in enumerate(tree):
+        try:
+            _build_one(root, ent, i, later)
+        except (FileExistsError, NotADirectoryError, IsADirectoryError):
+            pass          # a generated tree defined the same path twice in conflicting ways: the first definition wins
     for rp, mode, i in reversed(later):
         os.chmod(rp, mode)
         os.utime(rp, (MT0 + i, MT0 + i))
